@@ -33,8 +33,9 @@ Array::Array(const Array &other)
 {}
 
 void Array::copyData(const Array &other) {
-    for (size_t i = 0; i < data.size(); i++) {
-        data[i] = std::make_unique<PSC::Variable>(*(other.data[i]), other.data[i]->parent);
+    if (this == &other) return;
+    for (size_t i = 0; i < data.size() && i < other.data.size(); i++) {
+        data[i]->set(&other.data[i]->get<Value>(), true);
     }
 }
 
